@@ -3,10 +3,12 @@ package sim
 import (
 	"fmt"
 	"os"
+	"sort"
 	"strconv"
 
 	"verif/sim/rng"
 	"verif/sim/val"
+	"verif/sim/wrap"
 )
 
 // E-FAULT / E-CRASH(mem): position enumeration.
@@ -89,6 +91,26 @@ func genEnum(engine string, job *Job, prop string, seed, idx uint64) *RunOutcome
 		}
 		break
 	}
+	if names := e.M.CollNames(); len(names) > 0 && r.Chance(0.12) {
+		// a large batch: anything that splits a big insert into several store
+		// transactions only shows at the later commits
+		coll := names[r.Intn(len(names))]
+		n := []int{129, 130, 257, 300, 520, 1025, 1030}[r.Intn(7)]
+		target = Op{K: "Insert", Coll: coll}
+		for i := 0; i < n; i++ {
+			target.Docs = append(target.Docs, val.Wrap(map[string]interface{}{"_id": g.newID(), "a": int64(i % 7), "x": int64(i)}))
+		}
+		if engine == "fault" && r.Chance(0.5) {
+			// an offending document late in the batch: duplicate of an earlier one, or malformed
+			pos := n - 1 - r.Intn(n/8+1)
+			d := target.Docs[pos].X.(map[string]interface{})
+			if r.Bool() {
+				d["_id"] = target.Docs[r.Intn(pos)].X.(map[string]interface{})["_id"]
+			} else {
+				d["_id"] = "not-a-uuid"
+			}
+		}
+	}
 	target.Fault, target.Crash = 0, 0
 	rf.Ops = append(rf.Ops, target)
 	rf.Cfg["target"] = strconv.Itoa(len(rf.Ops) - 1)
@@ -128,8 +150,23 @@ func enumOnce(rf *RunFile, target int, fault, crash int, post bool) (*Exec, erro
 		}
 		if i == target {
 			op.Fault, op.Crash, op.CrashPost = fault, crash, post
+			if fault == 0 && crash == 0 {
+				e.Ctl.Trace = true
+				e.Ctl.Events = nil
+			}
 		}
-		if !e.Step(i, &op) {
+		ok := e.Step(i, &op)
+		if i == target && e.Ctl.Trace {
+			e.Ctl.Trace = false
+			e.targetKinds = nil
+			for _, ev := range e.Ctl.Events {
+				if ev.Kind.Faultable() {
+					e.targetKinds = append(e.targetKinds, ev.Kind)
+				}
+			}
+			e.Ctl.Events = nil
+		}
+		if !ok {
 			break
 		}
 		if i == target {
@@ -140,14 +177,25 @@ func enumOnce(rf *RunFile, target int, fault, crash int, post bool) (*Exec, erro
 			e.checked("follow-up-after-fault")
 		}
 	}
-	if e.V != nil && e.V.OpIdx > target && e.V.Rule == "unexpected-error" {
-		e.V.Props = []string{"C04", "C20"}
-		e.V.Rule = "C04/wedged"
-		e.V.Msg = "the operation after a failed one did not succeed: " + e.V.Msg
-	}
 	if e.V == nil && !e.closed {
 		e.cur = nil
 		e.Audit()
+	}
+	if e.V != nil && e.V.OpIdx > target && (fault > 0 || crash > 0) && e.V.Rule != "C20/panic" {
+		// something went wrong AFTER the failed / crashed operation, on a database
+		// which is fine without the fault: the failure left a trace in the handle
+		if fault > 0 {
+			if e.V.Rule == "unexpected-error" {
+				e.V.Rule = "C04/wedged"
+			} else {
+				e.V.Rule = "C04/after-fault(" + e.V.Rule + ")"
+			}
+			e.V.Props = append([]string{"C04", "C05"}, e.V.Props...)
+			e.V.Msg = "after an operation that failed because the store failed, the handle misbehaves: " + e.V.Msg
+		} else {
+			e.V.Rule = "C05/after-crash(" + e.V.Rule + ")"
+			e.V.Props = append([]string{"C05"}, e.V.Props...)
+		}
 	}
 	return e, nil
 }
@@ -186,10 +234,42 @@ func runEnum(rf *RunFile) *RunOutcome {
 		k, _ := strconv.Atoi(ks)
 		positions = []pos{{k, rf.Cfg["post"] == "1"}}
 	} else {
-		for k := 1; k <= n; k++ {
+		add := func(k int) {
 			positions = append(positions, pos{k, false})
 			if isCrash {
 				positions = append(positions, pos{k, true})
+			}
+		}
+		if n <= 150 {
+			for k := 1; k <= n; k++ {
+				add(k)
+			}
+		} else {
+			// a very long operation: every begin/commit position, the first and last
+			// calls, and a seeded sample of the rest
+			out.Stats.Probes["enum-long-op-sampled"]++
+			chosen := map[int]bool{}
+			for k, kd := range e0.targetKinds {
+				if kd == wrap.KCommit || kd == wrap.KBegin {
+					chosen[k+1] = true
+				}
+			}
+			for k := 1; k <= 4; k++ {
+				chosen[k], chosen[n+1-k] = true, true
+			}
+			pr := rng.Derive(rf.Seed, rf.RunIdx, 0x5a)
+			for len(chosen) < 50 {
+				chosen[1+pr.Intn(n)] = true
+			}
+			ks := make([]int, 0, len(chosen))
+			for k := range chosen {
+				if k >= 1 && k <= n {
+					ks = append(ks, k)
+				}
+			}
+			sort.Ints(ks)
+			for _, k := range ks {
+				add(k)
 			}
 		}
 	}
